@@ -49,13 +49,14 @@ fn hostile_source(r: &mut StdRng) -> Vec<u8> {
                 ls.push(format!("{ws}{pre}TXTPP#{name}{sep}{arg}"));
                 // continuation block in every form and length
                 for _ in 0..r.gen_range(0..4) {
-                    let k = r.gen_range(0..5);
+                    let k = r.gen_range(0..6);
                     let body = HOSTILE[r.gen_range(0..HOSTILE.len())];
                     ls.push(match k {
                         0 => format!("{ws}{pre}{body}"),
                         1 => format!("{ws}{}{body}", " ".repeat(r.gen_range(0..pre.len() + 2))),
                         2 => format!("{ws}{}", pre.trim_end()),
                         3 => format!("{ws}{}", " ".repeat(r.gen_range(0..pre.len() + 2))),
+                        4 => format!("{ws}{}{body}", ["\u{e4}\u{f6}\u{fc}", "\u{2713}", "\u{1f600}", "\u{e9}"][r.gen_range(0..4)]),
                         _ => format!("{}{pre}{body}", &ws[..ws.char_indices().nth(1).map(|x| x.0).unwrap_or(0)]),
                     });
                 }
@@ -295,7 +296,7 @@ fn run(ctx: &mut Ctx) {
     if ctx.shard == 0 {
         cli_options(ctx);
     }
-    let n = ctx.tier.pick(1500, 120_000);
+    let n = ctx.tier.pick(6000, 150_000);
     for i in 0..n {
         if !ctx.time_left() || ctx.violations.len() > 30 {
             break;
